@@ -450,3 +450,44 @@ package ro
 //@   props C17 C03
 //@   track subscriptions.* call.Once.Do chclose.*
 //@   ensures [releases-upstream-then-closes-once|C17,C03] trace(subscriptions.Unsubscribe(), call.Once.Do)
+
+// detachOn (ObserveOn / SubscribeOn, operator_utility.go): a channel of the configured capacity; one blocking send
+// per upstream notification, in callback order; the channel is closed after the terminal notification; one consumer
+// loop delivers what it receives, in order.
+
+//@ func detachOn$1$1
+//@   note the subscribe function of detachOn
+//@   props C08
+//@   maypanic
+//@   inline processNotificationWithContext
+//@   track chmake
+//@   ensures [queue-of-the-configured-capacity|C08] trace(chmake(bufferSize))
+
+//@ func detachOn$1$1$2$1
+//@   note upstream Next
+//@   props C08 C09
+//@   track chsend.* chselect destination.* call.Once.Do
+//@   ensures [one-blocking-send-per-value|C08] trace(chsend.ch(_, fields(ctx, fields(0, value, _))))
+
+//@ func detachOn$1$1$2$2
+//@   note upstream Error
+//@   props C08 C09
+//@   track chsend.* chselect destination.* call.Once.Do
+//@   ensures [terminal-queued-like-a-value-then-closed|C08] trace(chsend.ch(_, fields(ctx, fields(1, _, err))), call.Once.Do)
+
+//@ func detachOn$1$1$2$3
+//@   note upstream Complete
+//@   props C08 C09
+//@   track chsend.* chselect destination.* call.Once.Do
+//@   ensures [terminal-queued-like-a-value-then-closed|C08] trace(chsend.ch(_, fields(ctx, fields(2, _, _))), call.Once.Do)
+
+//@ func detachOn$1$1$3
+//@   note the consumer loop (produceDownstream)
+//@   props C08 C09
+//@   maypanic
+//@   inline processNotificationWithContext
+//@   track chrecv.* destination.* loop.* spawn.*
+//@   ensures [single-consumer-loop|C08] trace(loop.L0, chrecv.ch)
+
+//@ loop detachOn$1$1$3#0
+//@   iteration emits chrecv.ch, destination.ANY(received.A)
